@@ -103,11 +103,74 @@ def operand_ty(b, o):
 
 
 # ------------------------------------------------------------------------------------------------ C01
+@mutator("C04")
+def path_on_scalar_variable(rng, s, b):
+    """A thread-variable operand is continued by an attribute although the variable (or the path so far) holds a
+    plain value: the operand's type cannot be resolved.  The rest of the comparison stays as it was, so it still fits
+    the type the operand had before the extension."""
+    cands = []
+    for (c, i, side) in operand_positions(s):
+        o = c["deps"][i][side]
+        if o[0] != "var":
+            continue
+        other = c["deps"][i][4 - side]
+        if other[0] == "lit" and other[1] == "SNull":
+            continue
+        cands.append((c, i, side))
+    if not cands:
+        return None
+    c, i, side = rng.choice(cands)
+    d = list(c["deps"][i])
+    o = d[side]
+    # only operands that end in a plain value (scalar or list of scalars) -- an object would make the new segment legal
+    def var_type(gid, depth=0):
+        g = next((x for x in s["groups"] if x["id"] == gid), None)
+        if g is None or depth > 6:
+            return None
+        if g["src"][0] == "P":
+            pr = next((x for x in s["promises"] if x["id"] == g["src"][1][1]), None)
+            if pr is None:
+                return None
+            start = pr["type"][1]
+        else:
+            vt = var_type(g["src"][1], depth + 1)
+            if vt is None or vt[0] != "OBJECT":
+                return None
+            start = vt[1]
+        for (pp, t, obj) in b.paths_from(start):
+            if pp == list(g["src"][2]) and t.endswith("_LIST"):
+                return (t[:-5], obj)
+        return None
+    vt = var_type(o[1])
+    if vt is None:
+        return None
+    if o[2]:
+        if vt[0] != "OBJECT":
+            return None
+        end = next((t for (pp, t, obj) in b.paths_from(vt[1]) if pp == list(o[2])), None)
+    else:
+        end = vt[0]
+    if end is None or end.startswith("OBJECT"):
+        return None
+    names = sorted(set(a["name"] for t in s["otypes"] for a in t["attrs"]))
+    seg = rng.choice(names + [77])
+    d[side] = ("var", o[1], list(o[2]) + [seg])
+    c["deps"][i] = tuple(d)
+    return "attribute path continued from a thread variable operand (segment %s)" % seg
+
+
 @mutator("C01")
 def dangling_ref(rng, s, b):
     setter, cur, kind, name = rng.choice(ref_positions(s))
     setter((cur[0], 900 + rng.randrange(50)))
     return "dangling %s" % name
+
+
+@mutator("C01")
+def ref_qualified_by_unimported_schema(rng, s, b):
+    setter, cur, kind, name = rng.choice(ref_positions(s))
+    setter((cur[0], S.GHOST + cur[1]))
+    return "%s qualified by a schema that is not imported (local part resolves natively)" % name
 
 
 @mutator("C01")
@@ -498,6 +561,39 @@ def threaded_action_compared_outside(rng, s, b):
 
 
 @mutator("C05")
+def second_threaded_operand_outside(rng, s, b):
+    """A comparison of a thread-bound checkpoint whose LEFT operand is a threaded action in scope and whose RIGHT
+    operand is a threaded action of a group that does not enclose the checkpoint; typed so that scope is the only
+    fault (seen from outside, a threaded promise is a list: scalar ONE_OF / NONE_OF list)."""
+    ta = _threaded_actions(s)
+    cands = []
+    for c in s["checkpoints"]:
+        if c["ctx"] is None:
+            continue
+        chain = _chain(s, c["ctx"][1])
+        ins = [a for a in ta if a["ctx"][1] in chain]
+        # in-scope operands that the checkpoint already compares add no new dependency edge
+        already = set(d[side][1][1] for d in c["deps"] if d[0] == "cmp" for side in (1, 3) if d[side][0] == "act")
+        ins = [a for a in ins if a["id"] in already]
+        users = [x["id"] for x in s["actions"] if x["dep"] == ("checkpoint", c["id"])]
+        outs = [a for a in ta if a["ctx"][1] not in chain and not any(u == a["id"] or u in b.anc.get(a["id"], set()) for u in users)]
+        for x in ins:
+            for y in outs:
+                cands.append((c, x, y))
+    rng.shuffle(cands)
+    for c, x, y in cands[:20]:
+        px = [(p, t) for (p, t, _) in b.paths_from(b.promise_of_action(x["id"])["type"][1]) if t in ("STRING", "NUMERIC", "BOOLEAN")]
+        py = [(p, t) for (p, t, _) in b.paths_from(b.promise_of_action(y["id"])["type"][1]) if t in ("STRING", "NUMERIC", "BOOLEAN")]
+        pairs = [(p1, p2) for (p1, t1) in px for (p2, t2) in py if t1 == t2]
+        if not pairs:
+            continue
+        p1, p2 = rng.choice(pairs)
+        add_dep(rng, c, ("cmp", ("act", ("action", x["id"]), list(p1)), rng.choice(["ONE_OF", "NONE_OF"]), ("act", ("action", y["id"]), list(p2))))
+        return "right operand is a threaded action outside the checkpoint's thread group (left operand threaded and in scope)"
+    return None
+
+
+@mutator("C05")
 def variable_used_outside(rng, s, b):
     if not s["groups"]:
         return None
@@ -606,7 +702,7 @@ def edit_outside_fulfilment_context(rng, s, b):
     return "edit outside the context in which the promise is fulfilled"
 
 
-THREAD_ONLY = {"threaded_checkpoint_used_outside", "threaded_action_compared_outside", "variable_used_outside",
+THREAD_ONLY = {"path_on_scalar_variable", "threaded_checkpoint_used_outside", "threaded_action_compared_outside", "second_threaded_operand_outside", "variable_used_outside",
                "spawn_from_non_list", "spawn_not_fulfilled_by_ancestor", "unused_thread_group",
                "variable_name_repeats_in_chain", "promise_context_mismatch", "edit_outside_fulfilment_context"}
 
@@ -644,6 +740,16 @@ def appends_by_dependee(rng, s, b):
         return None
     x = rng.choice(cands)
     c = next(cc for cc in s["checkpoints"] if cc["id"] == x["dep"][1])
+    # half of the time the appender is the RIGHT operand of a comparison whose left operand is another action
+    ctx_of = {y["id"]: y["ctx"] for y in s["actions"]}
+    partners = sorted(y for y in b.anc[x["id"]] if y != a["id"] and ctx_of.get(y) in (None, x["ctx"]))
+    if partners and rng.random() < 0.5:
+        y = rng.choice(partners)
+        for _ in range(12):
+            cmp_, two = b.make_cmp(y, a["id"])
+            if two and cmp_[1][0] == "act" and cmp_[1][1][1] == y and cmp_[3][0] == "act" and cmp_[3][1][1] == a["id"]:
+                add_dep(rng, c, cmp_)
+                return "an action that appends objects is the right operand of a dependency's comparison"
     add_dep(rng, c, b.make_cmp(a["id"])[0])
     return "an action that appends objects is itself a dependency of a checkpoint"
 
